@@ -5,7 +5,9 @@ package main
 // traps and ignores the interrupt, exits at about the moment the context expires, or finishes
 // early.  Checked on the implementation: verdict and timed-out message, completion of RunT and
 // all subtests by the deadline (+ slack), no child left, interrupt about two grace periods before
-// the deadline and kill one grace period later; compared with the windows the Coq model
+// the deadline and kill one grace period later (also for scripts that start long after the RunT call,
+// with work-directory retention in every form, with background commands next to the foreground
+// one); compared with the windows the Coq model
 // (TsDeadline.v) predicts for zero delay and for a delay of sigma at every step.  Timing
 // oracles tolerate 40 ms early / 0.6 grace periods late (completion: deadline + 1.5 s) and count only
 // what shows in each of five attempts.
@@ -14,6 +16,7 @@ import (
 	"bytes"
 	"encoding/hex"
 	"encoding/json"
+	"flag"
 	"fmt"
 	"os"
 	"os/exec"
@@ -49,6 +52,11 @@ type DlScript struct {
 	Ms    int  `json:"ms"`
 	OffUs int  `json:"off_us,omitempty"`
 	Neg   bool `json:"neg,omitempty"`
+	// Bg: a background command started before the foreground one ("" none): "plain" dies of any signal;
+	// "quitproof" handles SIGQUIT (the interrupt sent when the context expires) and carries on, and dies of
+	// SIGINT (sent by run() when the script ends); "trapint" handles both and exits 20 ms after SIGINT.
+	// Whatever it does, the script ends as its foreground command makes it end and leaves no process.
+	Bg string `json:"bg,omitempty"`
 }
 
 // DlCall is one RunT call of a history of calls made by one process before the call that is
@@ -59,6 +67,7 @@ type DlCall struct {
 	Scripts         []DlScript `json:"scripts"`
 	SeqT            bool       `json:"seq_t,omitempty"`
 	ContinueOnError bool       `json:"continue_on_error,omitempty"`
+	TestWork        bool       `json:"test_work,omitempty"` // Params.TestWork of this call
 }
 
 type DeadlineJob struct {
@@ -75,9 +84,33 @@ type DeadlineJob struct {
 	// IgnoreQuit: the process that calls RunT ignores SIGQUIT (signal.Ignore), so every command the
 	// scripts start ignores the interrupt of waitOrStop from its very first instruction
 	IgnoreQuit bool `json:"ignore_quit,omitempty"`
+	// Retain: work-directory retention, which has nothing to do with the deadline: "" | "testwork"
+	// (Params.TestWork of the measured call) | "workdirroot" | "flag" (the -testwork flag, set before the
+	// first call of the process)
+	Retain string `json:"retain,omitempty"`
 }
 
 func (s *DlScript) text(obsDir string, ctxExpiry time.Time) string {
+	t := s.fgText(obsDir, ctxExpiry)
+	if s.Bg == "" {
+		return t
+	}
+	bgLog := filepath.Join(obsDir, "dl-"+s.Name+".log.bg")
+	line, word := "", "ready"
+	switch s.Bg {
+	case "plain":
+		line, word = "exec helper deadline block 0 "+bgLog+" &bg&", "start"
+	case "quitproof":
+		line = "exec helper deadline quitproof 0 " + bgLog + " &bg&"
+	case "trapint":
+		line = "exec helper deadline trapint 20 " + bgLog + " &bg&"
+	}
+	// the first line of every script text is a comment
+	head, rest, _ := strings.Cut(t, "\n")
+	return head + "\n" + line + "\nbgready " + bgLog + " " + word + "\n" + rest
+}
+
+func (s *DlScript) fgText(obsDir string, ctxExpiry time.Time) string {
 	neg := ""
 	if s.Neg {
 		neg = "! "
@@ -106,11 +139,22 @@ func runDeadlineChild(job *Job) {
 	if dl.IgnoreQuit {
 		signal.Ignore(syscall.SIGQUIT)
 	}
+	if dl.Retain == "flag" {
+		if err := flag.Set("testwork", "true"); err != nil {
+			out, _ := json.Marshal(&ChildResult{Error: "cannot set -testwork: " + err.Error()})
+			os.WriteFile(job.Out, out, 0o666)
+			return
+		}
+	}
 	var prior []*ChildResult
 	for k, pc := range dl.Prior {
-		prior = append(prior, runDeadlineCall(job, fmt.Sprintf("p%d", k), pc.UntilMs, pc.Scripts, pc.SeqT, pc.ContinueOnError))
+		retain := ""
+		if pc.TestWork {
+			retain = "testwork"
+		}
+		prior = append(prior, runDeadlineCall(job, fmt.Sprintf("p%d", k), pc.UntilMs, pc.Scripts, pc.SeqT, pc.ContinueOnError, retain))
 	}
-	res := runDeadlineCall(job, "m", dl.UntilMs, dl.Scripts, dl.SeqT, dl.ContinueOnError)
+	res := runDeadlineCall(job, "m", dl.UntilMs, dl.Scripts, dl.SeqT, dl.ContinueOnError, dl.Retain)
 	res.Prior = prior
 	out, _ := json.Marshal(res)
 	if err := os.WriteFile(job.Out, out, 0o666); err != nil {
@@ -120,7 +164,7 @@ func runDeadlineChild(job *Job) {
 }
 
 // runDeadlineCall: one RunT call with Params.Deadline untilMs away (0: none) and everything it saw.
-func runDeadlineCall(job *Job, tag string, untilMs int, scripts []DlScript, seqT, coe bool) *ChildResult {
+func runDeadlineCall(job *Job, tag string, untilMs int, scripts []DlScript, seqT, coe bool, retain string) *ChildResult {
 	dl := job.Deadline
 	res := &ChildResult{Uid: os.Getuid()}
 	obsDir := filepath.Join(job.Dir, "obs")
@@ -150,6 +194,24 @@ func runDeadlineCall(job *Job, tag string, untilMs int, scripts []DlScript, seqT
 	p := testscript.Params{Files: files, ContinueOnError: coe}
 	if untilMs > 0 {
 		p.Deadline = deadline
+	}
+	switch retain {
+	case "testwork":
+		p.TestWork = true
+	case "workdirroot":
+		p.WorkdirRoot = filepath.Join(job.WorkRoot, tag)
+		os.MkdirAll(p.WorkdirRoot, 0o777)
+	}
+	// bgready <log>: wait until the background command has its signal handlers in place
+	p.Cmds = map[string]func(ts *testscript.TestScript, neg bool, args []string){
+		"bgready": func(ts *testscript.TestScript, neg bool, args []string) {
+			for k := 0; k < 300; k++ {
+				if b, err := os.ReadFile(args[0]); err == nil && strings.Contains(string(b), args[1]+" ") {
+					return
+				}
+				time.Sleep(10 * time.Millisecond)
+			}
+		},
 	}
 	ran := make(chan struct{})
 	go func() {
@@ -191,8 +253,12 @@ func helperPids(dir string) []int {
 
 // helperLog: the time stamps (ns since T0) the helper of script name logged.
 func helperLog(dir, name string, t0 int64) map[string]int64 {
+	return helperLogFile(filepath.Join(dir, "obs", "dl-"+name+".log"), t0)
+}
+
+func helperLogFile(path string, t0 int64) map[string]int64 {
 	out := map[string]int64{}
-	b, err := os.ReadFile(filepath.Join(dir, "obs", "dl-"+name+".log"))
+	b, err := os.ReadFile(path)
 	if err != nil {
 		return out
 	}
@@ -211,6 +277,9 @@ func helperLog(dir, name string, t0 int64) map[string]int64 {
 
 const msNs = int64(time.Millisecond)
 
+// the slack per step the model's windows are computed with
+const sigmaNs = 150 * msNs
+
 // a deadline job is repeated until it shows nothing, at most this many times
 const maxAttempts = 5
 
@@ -219,8 +288,38 @@ type dlFinding struct {
 	kind                        string
 }
 
-// evalDeadline runs one job and returns what failed (nothing when all is as the property says).
-func (rn *runner) evalDeadline(dl *DeadlineJob) ([]dlFinding, map[string]int) {
+// evalDeadline1 (through evalDeadlineNoise) runs one job and returns what failed (nothing when all is as the property says).
+// timingOracles: the oracles that compare measured times with windows.
+var timingOracles = map[string]bool{"deadline/interrupt-time": true, "deadline/kill-time": true, "deadline/finish": true,
+	"model/interrupt-window": true, "model/return-window": true, "model/timed-automaton": true}
+
+// evalDeadlineNoise also reports how late, at worst, a 5 ms sleep of this process woke up while the job
+// was running: a measure of how busy the machine was.
+func (rn *runner) evalDeadlineNoise(dl *DeadlineJob) ([]dlFinding, map[string]int, time.Duration) {
+	stop := make(chan struct{})
+	noise := make(chan time.Duration, 1)
+	go func() {
+		var worst time.Duration
+		for {
+			select {
+			case <-stop:
+				noise <- worst
+				return
+			default:
+			}
+			t := time.Now()
+			time.Sleep(5 * time.Millisecond)
+			if late := time.Since(t) - 5*time.Millisecond; late > worst {
+				worst = late
+			}
+		}
+	}()
+	fs, counts := rn.evalDeadline1(dl)
+	close(stop)
+	return fs, counts, <-noise
+}
+
+func (rn *runner) evalDeadline1(dl *DeadlineJob) ([]dlFinding, map[string]int) {
 	counts := map[string]int{}
 	var fs []dlFinding
 	add := func(kind, oracle, detail, model, impl string) {
@@ -374,9 +473,46 @@ func (rn *runner) evalCall(dl *DeadlineJob, untilMs int, scripts []DlScript, cr 
 			continue
 		}
 		hl := helperLog(ro.dir, s.Name, cr.T0)
-		start := hl["start"]
-		if s.Mode == "sleep" || s.Mode == "builtin" {
+		start, started := hl["start"]
+		if s.Mode == "sleep" || s.Mode == "builtin" || !started {
+			// (a helper that was started after the context had expired may die before it has logged anything)
 			start = o.StartNs
+		}
+		// A command that is started after the moment the context expires (its script had to wait for
+		// others: sequential T, little parallelism) is interrupted as soon as it runs, and killed one grace
+		// period after that: the times the property states are lower bounds then.
+		intAt, killExp := ctxAt, killAt
+		cmdAt := start // the moment from which the command is there to be interrupted
+		if r, ok := hl["ready"]; ok {
+			cmdAt = r
+		}
+		hlbg := helperLogFile(filepath.Join(ro.dir, "obs", "dl-"+s.Name+".log.bg"), cr.T0)
+		if _, ok := hl["ready"]; !ok && s.Bg != "" {
+			// the foreground command comes after the line that waits for the background command to be up
+			for _, k := range []string{"ready", "start"} {
+				if t, ok := hlbg[k]; ok && t > cmdAt {
+					cmdAt = t
+					break
+				}
+			}
+		}
+		if cmdAt > intAt {
+			intAt = cmdAt
+		}
+		if intAt+grace > killExp {
+			killExp = intAt + grace
+		}
+		lateStart := o.StartNs > 100*msNs
+		if lateStart {
+			counts["class:subtest-started-late"]++
+			// the model (TsLate.v): the context of a script is RunT's whenever the script starts, and a
+			// command started at cmdAt can be interrupted from max(expiry, cmdAt) on
+			if a := rn.ask(fmt.Sprintf("startctx 0 0 %d %d", until, cmdAt)); rn.m != nil && a != fmt.Sprintf("ctx=%d c=%d", ctxAt, intAt) {
+				add("correspondence", "model/late-start", fmt.Sprintf("%sscript %s started at %d ms: the model's context deadline / earliest interrupt differ from those of the RunT call", where, s.Name, o.StartNs/msNs), a, fmt.Sprintf("ctx=%d c=%d", ctxAt, intAt))
+			}
+		}
+		if s.Bg != "" {
+			counts["bg:"+s.Bg]++
 		}
 		// ---- the model's windows for this process
 		e, in := "-", "-"
@@ -402,7 +538,7 @@ func (rn *runner) evalCall(dl *DeadlineJob, untilMs int, scripts []DlScript, cr 
 			e = strconv.FormatInt(start, 10)
 			in = "0"
 		}
-		sigma := 150 * msNs
+		sigma := sigmaNs
 		ans := rn.ask(fmt.Sprintf("deadline %d 0 %s %s %d %s %s", until, e, in, sigma, waitok, b01(s.Neg)))
 		mf := map[string][2]string{}
 		parts := strings.Split(ans, " | ")
@@ -436,6 +572,10 @@ func (rn *runner) evalCall(dl *DeadlineJob, untilMs int, scripts []DlScript, cr 
 		}
 		timedOut := o.Verdict == "FAIL" && len(msg) > 0 && strings.Contains(o.Log, string(msg))
 		end := o.EndNs
+		if t, ok := hlbg["int"]; ok && t < end && t > 0 {
+			// the script's part is over when run() interrupts what is left of its background commands
+			end = t
+		}
 		counts["mode:"+s.Mode]++
 		counts["verdict:"+o.Verdict]++
 		blocked := false
@@ -498,6 +638,9 @@ func (rn *runner) evalCall(dl *DeadlineJob, untilMs int, scripts []DlScript, cr 
 			if _, sig := hl["quit"]; sig {
 				add("impl-violation", "deadline/early-affected", where+"script "+s.Name+" finished early but its process received the interrupt", "", "")
 			}
+			if q, sig := hlbg["quit"]; sig && s.Bg != "" {
+				add("impl-violation", "deadline/early-affected", fmt.Sprintf("%sscript %s finished %d ms before the context expired but its background command was sent the interrupt of an expired context (at %d ms; deadline %d ms away)", where, s.Name, (ctxAt-end)/msNs, q/msNs, untilMs), "", "")
+			}
 		default:
 			counts["class:borderline"]++
 			if !(o.Verdict == "PASS" && !s.Neg) && !timedOut && !(s.Neg && o.Verdict == "FAIL") {
@@ -508,25 +651,33 @@ func (rn *runner) evalCall(dl *DeadlineJob, untilMs int, scripts []DlScript, cr 
 		if q, ok := hl["quit"]; ok && blocked {
 			counts["timing:interrupt"]++
 			counts[lateBucket("interrupt-late", q-ctxAt)]++
-			if q < ctxAt-earlyTol || q > ctxAt+lateTol {
-				add("impl-violation", "deadline/interrupt-time", fmt.Sprintf("%sscript %s: deadline %d ms, grace %d ms: interrupt expected at %d ms, received at %d ms", where, s.Name, untilMs, grace/msNs, ctxAt/msNs, q/msNs), "", "")
+			if q < ctxAt-earlyTol || q > intAt+lateTol {
+				add("impl-violation", "deadline/interrupt-time", fmt.Sprintf("%sscript %s (subtest started at %d ms, command ready at %d ms): deadline %d ms, grace %d ms: interrupt expected at %d ms, received at %d ms", where, s.Name, o.StartNs/msNs, hl["ready"]/msNs, untilMs, grace/msNs, intAt/msNs, q/msNs), "", "")
 			}
 			lo, _ := strconv.ParseInt(mf["int"][0], 10, 64)
 			hi, _ := strconv.ParseInt(mf["int"][1], 10, 64)
-			if haveModel && (q < lo-earlyTol || q > hi+lateTol) {
+			if haveModel && intAt == ctxAt && (q < lo-earlyTol || q > hi+lateTol) {
 				add("correspondence", "model/interrupt-window", fmt.Sprintf("%sscript %s: interrupt at %d ms outside the model's window", where, s.Name, q/msNs), mf["int"][0]+".."+mf["int"][1], fmt.Sprint(q))
 			}
-		} else if blocked && (isTrap(s.Mode) || s.Mode == "ignore") && (handlerInPlace || !hasReady && start > 0 && start < ctxAt-150*msNs) {
+		} else if blocked && (isTrap(s.Mode) || s.Mode == "ignore") && (handlerInPlace || !hasReady && started && start < ctxAt-150*msNs) {
 			add("impl-violation", "deadline/interrupt-time", where+"script "+s.Name+": the blocked process never received the interrupt", "", tail(o.Log, 300))
+		}
+		// a blocked command with the default signal disposition dies of the interrupt: it ends when it is
+		// interrupted, neither earlier nor (much) later
+		if s.Mode == "sleep" || s.Mode == "block" {
+			counts["timing:stop"]++
+			if end < ctxAt-earlyTol || end > intAt+sigmaNs+lateTol+40*msNs {
+				add("impl-violation", "deadline/interrupt-time", fmt.Sprintf("%sscript %s (subtest started at %d ms) blocks in a command that dies of the interrupt: deadline %d ms, grace %d ms: interrupt expected at %d ms, the command ended at %d ms", where, s.Name, o.StartNs/msNs, untilMs, grace/msNs, intAt/msNs, end/msNs), "", tail(o.Log, 200))
+			}
 		}
 		// kill one grace period later for a process that ignores the interrupt
 		if s.Mode == "ignore" {
 			counts["timing:kill"]++
 			counts[lateBucket("kill-late", end-killAt)]++
-			if end < killAt-earlyTol || end > killAt+lateTol+40*msNs {
-				add("impl-violation", "deadline/kill-time", fmt.Sprintf("%sscript %s ignores the interrupt: deadline %d ms, grace %d ms: kill expected at %d ms, the command ended at %d ms", where, s.Name, untilMs, grace/msNs, killAt/msNs, end/msNs), "", "")
+			if end < killAt-earlyTol || end > killExp+lateTol+40*msNs {
+				add("impl-violation", "deadline/kill-time", fmt.Sprintf("%sscript %s ignores the interrupt: deadline %d ms, grace %d ms: kill expected at %d ms, the command ended at %d ms", where, s.Name, untilMs, grace/msNs, killExp/msNs, end/msNs), "", "")
 			}
-			if q, ok := hl["quit"]; ok {
+			if q, ok := hl["quit"]; ok && intAt == ctxAt {
 				// is (interrupt at q, return at end) a run of the timed automaton with slack sigma?
 				counts["timed-automaton:asked"]++
 				if a := rn.ask(fmt.Sprintf("ta %d %d %d %d %d", ctxAt, grace, sigma, q, end)); haveModel && !strings.HasPrefix(a, "accepted=1") {
@@ -543,7 +694,7 @@ func (rn *runner) evalCall(dl *DeadlineJob, untilMs int, scripts []DlScript, cr 
 			if wantTO != timedOut && mf["verdict"][0] == mf["verdict"][1] {
 				add("correspondence", "model/verdict", fmt.Sprintf("%sscript %s (%s): model says %s", where, s.Name, s.Mode, mf["verdict"][0]), mf["verdict"][0], o.Verdict)
 			}
-			if mf["ret"][0] != "-" && s.Mode != "builtin" && !(isTrap(s.Mode) && !handlerInPlace) {
+			if mf["ret"][0] != "-" && s.Mode != "builtin" && !(isTrap(s.Mode) && !handlerInPlace) && intAt == ctxAt {
 				lo, _ := strconv.ParseInt(mf["ret"][0], 10, 64)
 				hi, _ := strconv.ParseInt(mf["ret"][1], 10, 64)
 				if end < lo-earlyTol || end > hi+lateTol+40*msNs {
@@ -631,13 +782,34 @@ func genDeadlineJob(r *common.RNG, id int) DeadlineJob {
 			s.Mode = "builtin"
 		}
 		s.Neg = s.Mode != "builtin" && r.Chance(1, 4)
+		if r.Chance(1, 4) {
+			s.Bg = common.Pick(r, []string{"plain", "quitproof", "quitproof", "trapint"})
+		}
 		dl.Scripts = append(dl.Scripts, s)
+	}
+	// work-directory retention in one of its forms: it has nothing to do with the deadline
+	if r.Chance(1, 2) {
+		dl.Retain = common.Pick(r, []string{"testwork", "flag", "flag", "workdirroot"})
+	}
+	// every fourth job: the subtests run one after the other (a sequential T) and the last script, the
+	// only one that may block, starts long after the RunT call: scripts that finish early come first,
+	// one of them taking a good part of the time there is
+	if r.Chance(1, 4) {
+		dl.SeqT = true
+		for i := range dl.Scripts[:n-1] {
+			dl.Scripts[i].Mode, dl.Scripts[i].Ms, dl.Scripts[i].Bg = "exitat", common.Pick(r, []int{0, 10, 30}), ""
+		}
+		dl.Scripts[0].Ms = ctx * common.Pick(r, []int{20, 35, 50}) / 100
+		last := &dl.Scripts[n-1]
+		if last.Mode == "exitat" || last.Mode == "builtin" {
+			last.Mode, last.Ms = common.Pick(r, []string{"sleep", "block", "trapexit0", "ignore"}), 0
+		}
 	}
 	// every third job: the process has made one or two RunT calls before, with other deadlines (or none)
 	if r.Chance(1, 3) {
 		np := 1 + r.Intn(2)
 		for k := 0; k < np; k++ {
-			pc := DlCall{UntilMs: common.Pick(r, []int{0, 3600000, 3600000, 600000, 60000, 5000, 800}), SeqT: r.Chance(1, 4)}
+			pc := DlCall{UntilMs: common.Pick(r, []int{0, 3600000, 3600000, 600000, 60000, 5000, 800}), SeqT: r.Chance(1, 4), TestWork: r.Chance(1, 4)}
 			pc.Scripts = quickScripts(r, fmt.Sprintf("j%dp%d", id, k))
 			dl.Prior = append(dl.Prior, pc)
 		}
@@ -648,10 +820,28 @@ func genDeadlineJob(r *common.RNG, id int) DeadlineJob {
 func (rn *runner) oneDeadline(dl *DeadlineJob, tag string) {
 	var last []dlFinding
 	persistent := map[string]int{}
-	attempts := 0
+	attempts, noisy := 0, 0
 	for attempts < maxAttempts {
+		fs, counts, noise := rn.evalDeadlineNoise(dl)
+		// an attempt made while the machine was so busy that a 5 ms sleep of this very process overran by
+		// more than 50 ms says nothing about times: it is repeated (at most five such repetitions per job)
+		if noise > 50*time.Millisecond && noisy < 5 && len(fs) > 0 {
+			only := true
+			for _, f := range fs {
+				if !timingOracles[f.oracle] {
+					only = false
+				}
+			}
+			if only {
+				noisy++
+				rn.rmu.Lock()
+				rn.res.Count("attempt-repeated:machine-busy")
+				rn.rmu.Unlock()
+				time.Sleep(300 * time.Millisecond)
+				continue
+			}
+		}
 		attempts++
-		fs, counts := rn.evalDeadline(dl)
 		if attempts == 1 {
 			rn.rmu.Lock()
 			for k, v := range counts {
@@ -682,6 +872,7 @@ func (rn *runner) oneDeadline(dl *DeadlineJob, tag string) {
 				persistent[f.oracle]++
 			}
 		}
+		time.Sleep(time.Duration(attempts) * 100 * time.Millisecond)
 	}
 	rn.rmu.Lock()
 	defer rn.rmu.Unlock()
@@ -689,6 +880,12 @@ func (rn *runner) oneDeadline(dl *DeadlineJob, tag string) {
 	rn.res.Count(fmt.Sprintf("until:%dms", dl.UntilMs))
 	if attempts > 1 {
 		rn.res.Count(fmt.Sprintf("attempts:%d", attempts))
+		// what showed in some attempt and not in all of them: scheduling noise, kept for the record
+		for o, n := range persistent {
+			if n < maxAttempts {
+				rn.res.Count(fmt.Sprintf("transient:%s:%dx", o, n))
+			}
+		}
 	}
 	var modes []string
 	for _, s := range dl.Scripts {
@@ -780,7 +977,8 @@ func (rn *runner) mainC17() {
 		if grace < 100 {
 			grace = 100
 		}
-		items = append(items, item{DeadlineJob{UntilMs: until, Par: 8, Procs: 4, Scripts: []DlScript{
+		// (work-directory retention in its several forms has nothing to do with any of this)
+		items = append(items, item{DeadlineJob{UntilMs: until, Par: 8, Procs: 4, Retain: []string{"flag", "testwork"}[k], Scripts: []DlScript{
 			{Name: fmt.Sprintf("h%dsleep", k), Mode: "sleep"},
 			{Name: fmt.Sprintf("h%dtrap", k), Mode: "trapexit", Ms: 10},
 			{Name: fmt.Sprintf("h%dignore", k), Mode: "ignore"},
@@ -791,7 +989,7 @@ func (rn *runner) mainC17() {
 		}}, "hand"})
 		// commands that handle the interrupt and exit by themselves, with every kind of exit status, at
 		// once or a little later: blocked until the context expired all the same
-		items = append(items, item{DeadlineJob{UntilMs: until, Par: 12, Procs: 4, Scripts: []DlScript{
+		items = append(items, item{DeadlineJob{UntilMs: until, Par: 12, Procs: 4, Retain: []string{"workdirroot", ""}[k], Scripts: []DlScript{
 			{Name: fmt.Sprintf("g%dzero", k), Mode: "trapexit0"},
 			{Name: fmt.Sprintf("g%dzerolate", k), Mode: "trapexit0", Ms: grace / 3},
 			{Name: fmt.Sprintf("g%dzeroneg", k), Mode: "trapexit0", Ms: 5, Neg: true},
@@ -807,7 +1005,7 @@ func (rn *runner) mainC17() {
 	quick := func(p string) []DlScript {
 		return []DlScript{{Name: p + "a", Mode: "exitat", Ms: 20}, {Name: p + "b", Mode: "builtin"}, {Name: p + "c", Mode: "exitat", Ms: 0}}
 	}
-	items = append(items, item{DeadlineJob{Prior: []DlCall{{UntilMs: hour, Scripts: quick("ha0")}},
+	items = append(items, item{DeadlineJob{Prior: []DlCall{{UntilMs: hour, Scripts: quick("ha0"), TestWork: true}}, Retain: "flag",
 		UntilMs: 5000, Par: 8, Procs: 4, Scripts: []DlScript{{Name: "ha1slow", Mode: "exitat", Ms: 300}, {Name: "ha1a", Mode: "exitat", Ms: 20}, {Name: "ha1b", Mode: "builtin"}}}, "hand-history"})
 	items = append(items, item{DeadlineJob{Prior: []DlCall{{UntilMs: 0, Scripts: quick("hb0")}},
 		UntilMs: 1200, Par: 8, Procs: 4, Scripts: []DlScript{{Name: "hb1sleep", Mode: "sleep"}, {Name: "hb1zero", Mode: "trapexit0", Ms: 10}, {Name: "hb1early", Mode: "exitat", Ms: 30}}}, "hand-history"})
@@ -824,10 +1022,26 @@ func (rn *runner) mainC17() {
 	}
 	// a T that runs the subtests one after the other (cmd/testscript's does): the deadline is far away,
 	// every script finishes early and none may be affected by the others having finished
-	items = append(items, item{DeadlineJob{UntilMs: 3000, Par: 8, Procs: 4, SeqT: true, Scripts: []DlScript{
-		{Name: "q0", Mode: "exitat", Ms: 20}, {Name: "q1", Mode: "exitat", Ms: 30}, {Name: "q2", Mode: "builtin"},
+	items = append(items, item{DeadlineJob{UntilMs: 3000, Par: 8, Procs: 4, SeqT: true, Retain: "flag", Scripts: []DlScript{
+		{Name: "q0", Mode: "exitat", Ms: 20}, {Name: "q1", Mode: "exitat", Ms: 30, Bg: "quitproof"}, {Name: "q2", Mode: "builtin"},
 		{Name: "q3", Mode: "exitat", Ms: 10}, {Name: "q4", Mode: "exitat", Ms: 40},
 	}}, "hand-sequential-T"})
+	// scripts that start long after the RunT call (sequential T: the earlier scripts take a third of the
+	// time there is) and then block: the times are those of the deadline, not of the start of the script
+	for k, mode := range []string{"trapexit0", "sleep", "ignore"} {
+		items = append(items, item{DeadlineJob{UntilMs: 1500, Par: 8, Procs: 4, SeqT: true, Retain: []string{"", "testwork", ""}[k], Scripts: []DlScript{
+			{Name: fmt.Sprintf("ls%da", k), Mode: "exitat", Ms: 400}, {Name: fmt.Sprintf("ls%db", k), Mode: "builtin"},
+			{Name: fmt.Sprintf("ls%dc", k), Mode: mode},
+		}}, "hand-late-start"})
+	}
+	// background commands of every kind next to foreground commands of every kind: they change nothing
+	// (the one that survives the interrupt of the expired context is stopped when its script ends)
+	items = append(items, item{DeadlineJob{UntilMs: 1200, Par: 12, Procs: 4, Scripts: []DlScript{
+		{Name: "bgqsleep", Mode: "sleep", Bg: "quitproof"}, {Name: "bgqtrap", Mode: "trapexit0", Ms: 10, Bg: "quitproof"},
+		{Name: "bgqignore", Mode: "ignore", Bg: "quitproof"}, {Name: "bgqearly", Mode: "exitat", Ms: 30, Bg: "quitproof"},
+		{Name: "bgtblock", Mode: "block", Bg: "trapint"}, {Name: "bgtearly", Mode: "exitat", Ms: 20, Bg: "trapint"},
+		{Name: "bgpsleep", Mode: "sleep", Bg: "plain", Neg: true}, {Name: "bgpbuiltin", Mode: "builtin", Bg: "plain"},
+	}}, "hand-background"})
 	// a command that is started inside the last grace period (its predecessor was killed one grace
 	// period before the deadline; ContinueOnError lets the script go on) and ignores the interrupt
 	items = append(items, item{DeadlineJob{UntilMs: 700, Par: 8, Procs: 4, ContinueOnError: true, IgnoreQuit: true, Scripts: []DlScript{
@@ -871,7 +1085,7 @@ func (rn *runner) mainC17() {
 	}
 	close(ch)
 	wg.Wait()
-	res.Rule = fmt.Sprintf("two hand-written jobs (deadline 0.5 s and 2.4 s, one script per behaviour: /bin/sleep, exits on the interrupt, ignores it, finishes early, exits at the expiry of the context, negated blocking command, no subprocess), two jobs of commands that handle the interrupt and exit with status 0 / 1 / 2 / 130 at once or a little later (negated or not), four histories of 2-4 RunT calls made by one process with very different deadlines (an hour, ten minutes, none, seconds; quick scripts in the earlier calls, every behaviour in the last) and %d generated jobs of 2-4 parallel scripts with deadlines 0.4-3 s (every third after one or two earlier RunT calls); four jobs at a time; a finding is reported only when it shows in each of five attempts (timing tolerances: 40 ms early, 0.6 grace periods late); a sequential-T job; 3 (thorough: 12) rounds of 48 parallel commands exiting within +-2 ms of the context's expiry; a case is one script of one job, non-trivial when it runs a subprocess; distinct = distinct (deadline, behaviour, parameter, negation)", n)
+	res.Rule = fmt.Sprintf("two hand-written jobs (deadline 0.5 s and 2.4 s, one script per behaviour: /bin/sleep, exits on the interrupt, ignores it, finishes early, exits at the expiry of the context, negated blocking command, no subprocess), two jobs of commands that handle the interrupt and exit with status 0 / 1 / 2 / 130 at once or a little later (negated or not), four histories of 2-4 RunT calls made by one process with very different deadlines (an hour, ten minutes, none, seconds; quick scripts in the earlier calls, every behaviour in the last) and %d generated jobs of 2-4 parallel scripts with deadlines 0.4-3 s (every third after one or two earlier RunT calls); four jobs at a time; a finding is reported only when it shows in each of five attempts (timing tolerances: 40 ms early, 0.6 grace periods late); a sequential-T job; 3 (thorough: 12) rounds of 48 parallel commands exiting within +-2 ms of the context's expiry; work-directory retention (Params.TestWork, -testwork flag, WorkdirRoot) on half of the jobs and on calls of the histories; three jobs under a sequential T whose last script starts a third of the way to the deadline and then blocks (exits on the interrupt / dies of it / ignores it: the times expected are those of the RunT call; a command that starts after the expiry is expected to be interrupted at once), every fourth generated job likewise; a job with background commands of three kinds (dies of any signal, survives the interrupt of the expired context and dies of the SIGINT sent at the end of its script, handles both) next to foreground commands of every kind; commands that die of the interrupt must end when they are interrupted; a case is one script of one job, non-trivial when it runs a subprocess; distinct = distinct (deadline, behaviour, parameter, negation)", n)
 }
 
 // goTestDeadline: testscript.Run, the *testing.T entry point, in a real test binary started with
